@@ -162,6 +162,7 @@ macro_rules! impl_ent_poly { ($c:ty, $base:expr, $name:expr) => {
 }}
 impl_ent_poly!(FF<3>, json!({"k":"F","p":3}), "FF<3>");
 impl_ent_poly!(Ratio<i64>, json!({"k":"Q"}), "Ratio<i64>");
+impl_ent_poly!(FF<5>, json!({"k":"F","p":5}), "FF<5>");
 
 /// Run `f` on a helper thread and give up after `secs` seconds (the helper is left behind; the process exits at the end).
 pub fn with_deadline<T: Send + 'static>(secs: u64, f: impl FnOnce() -> T + Send + 'static) -> Option<Result<T, String>> {
